@@ -162,3 +162,40 @@ Example C02_switch_empty_bodies_agree :
   forallb (wf_supported true) t_switch_empty_cases = true /\
   mout t_switch_empty_cases c_x1 = Some (B "||"%string, None) /\ rout t_switch_empty_cases c_x1 = (B "||"%string, SNone).
 Proof. exact switch_empty_bodies_agree. Qed.
+
+(* ---- a right operand that does not exist (Proofs/SpecFacts.v) ---- *)
+From DT Require Import Proofs.SpecFacts.
+
+(* the reference semantics does not select a branch: the missing variable reads as nil, nil has no
+   text to compare with, and the condition is outside the specified domain -- for every operator *)
+Theorem C02_missing_right_operand_partial : forall flits c e,
+  ac_helper c = [] -> ac_llit c = false -> ac_rlit c = false ->
+  env_get e (ac_r c) = Some VNil -> ref_cond flits e c = CNA.
+Proof. exact cond_missing_right_partial. Qed.
+Print Assumptions C02_missing_right_operand_partial.
+
+Theorem C02_if_missing_right_operand_partial : forall flits rlookup budget rinc c th el he e,
+  ac_helper c = [] -> ac_llit c = false -> ac_rlit c = false ->
+  env_get e (ac_r c) = Some VNil -> ref_eval flits rlookup budget rinc (AIf c th el he) e = ([], e, SNA).
+Proof. exact if_missing_right_partial. Qed.
+Print Assumptions C02_if_missing_right_operand_partial.
+
+(* the interpreter: ErrUnknownType from the comparison, the result "false"; the error survives only
+   when there is no branch to fall into, so with an else branch that one is rendered *)
+Theorem C02_missing_right_operand_model : forall flits c l r o,
+  chQB c = false -> gp_val c r = VNil ->
+  node_cmp flits c l r false false o = (set_cerr None c, false, Some EUnknownType).
+Proof. exact node_cmp_missing_right. Qed.
+Print Assumptions C02_missing_right_operand_model.
+
+Example C02_missing_right_operand_example :
+  forallb (fun o => match ref_cond [] e_loop (mkACond (Sb "n"%string) (Sb "ghost"%string) false false o [] []) with CNA => true | _ => false end)
+          [OpEq; OpNq; OpGt; OpGtq; OpLt; OpLtq] = true /\
+  forallb (fun o =>
+             match run_nodes [] (fun _ => None) 10 (fun _ _ => None)
+                     (compile_tpl [AIf (mkACond (Sb "n"%string) (Sb "ghost"%string) false false o [] []) [AText (Sb "T"%string)] [AText (Sb "E"%string)] true])
+                     c_n5 (wr_new None 0) with
+             | Out _ w None => bytes_eqb (wr_bytes w) (Sb "E"%string)
+             | _ => false
+             end) [OpEq; OpNq; OpGt; OpGtq; OpLt; OpLtq] = true.
+Proof. exact missing_right_example. Qed.
